@@ -128,7 +128,8 @@ theorem minv_chGetDifference {O log keys org start} (hO : GoodOrders O) (hS : Sc
       have hb2 : m2.getBox (2 + c) = some b := by rw [← hm2]; exact hb
       have hlog : m1.w.log = log := h1.coh.hlog
       have hsort : KeySorted m1.w.log (2 + c) := by rw [hlog]; exact hS.sorted _ hk
-      have honest := chanDiff_honest m1.w c hsort b.state
+      have honest := chanDiff_honest m1.w c hsort
+        (by rw [hlog]; exact fun e he hk' => (hS.above _ hk e he hk').2.1) b.state
       rw [hlog] at honest
       rcases chanDiff_cases m1.w c b.state with ⟨p, hans⟩ | ⟨hans, hcand⟩ | hans
       · -- too long
@@ -146,15 +147,20 @@ theorem minv_chGetDifference {O log keys org start} (hO : GoodOrders O) (hS : Sc
           have hbb : b' = b := (Option.some.inj hb').symm
           subst hbb
           have hemp := chanDiff_empty_honest m1.w c hsort
-            (by rw [hlog, h1.c0 c hk]; exact hS.above _ hk) b'.state hcand
+            (by rw [hlog, h1.c0 c hk]; exact fun e he hk' => (hS.above _ hk e he hk').1) b'.state hcand
           rw [hlog] at hemp
           simp only [wfOp, List.all_nil, Bool.true_and, Bool.or_eq_true, Bool.and_eq_true, decide_eq_true_eq,
             List.all_eq_true, Bool.not_eq_true']
           left; left; right
           refine ⟨trivial, ?_⟩
           intro e he
+          by_cases hz : e.count = 0
+          · right; exact exempt_of_zero _ e hz
           left
-          have := hemp e he
+          have hec : 1 ≤ e.count := by
+            have := (hS.above _ hk e ((mem_seqLog log _ e).1 he).1 ((mem_seqLog log _ e).1 he).2).2.1
+            omega
+          have := hemp e he hec
           simp only [Bool.and_eq_false_iff, decide_eq_false_iff_not]
           by_cases h1' : b'.state < e.pos
           · exact Or.inr (fun h2' => this ⟨h1', h2'⟩)
